@@ -63,7 +63,34 @@ def illformed_oracle(ctx):
                 why = "%s about %r is located on line %d, the fault is on line %s" % (kind, name, sl + 1, [l + 1 for l in lines])
         if why:
             bad.append(dict(files=pipe.single(t), base="a.s", kind="illformed:" + kind, why=why, output=line[:300]))
-    return bad, len(cases)
+    # undefined labels in SEVERAL files: the error must sit on an occurrence of one of the names, in the file that holds it
+    trees = []
+    for _ in range(200 if ctx.thorough() else 50):
+        names = ctx.rng.sample(["alpha_missing", "zeta_missing", "mid_gone", "Zed", "a1", "nowhere"], 2)
+        uses = [ctx.rng.choice(["j %s", "bnez a0, %s", "la a1, %s", "jal %s"]) % n for n in names]
+        pad_a, pad_b = ctx.rng.randrange(0, 4), ctx.rng.randrange(0, 6)
+        fa = "main:\n" + " li a0, 1\n" * pad_a + (' .include "lib.s"\n' if ctx.rng.random() < 0.5 else "") + " " + uses[0] + "\n li a7, 10\n ecall\n"
+        if "include" not in fa:
+            fa += '.include "lib.s"\n'
+        fb = "helper:\n" + " addi a0, a0, 1\n" * pad_b + " " + uses[1] + "\n ret\n"
+        trees.append(([("a.s", fa), ("lib.s", fb)], names))
+    tout = lib.run_impl(ctx, [lib.store_cmd("cfg live -", f, "a.s") for f, _ in trees], tag="illformed-tree")
+    for (files, names), line in zip(trees, tout):
+        m = CE.match(line)
+        why = None
+        if not m or m.group(1) != "labelsnotdefined":
+            why = "two undefined labels in two files are not reported as such: %r" % line[:80]
+        else:
+            sl, sc, el, ec, fi = int(m.group(3)), int(m.group(4)), int(m.group(6)), int(m.group(7)), m.group(9)
+            order = ["a.s", "lib.s"]          # import order
+            text = dict(files)[order[int(fi)]] if fi.isdigit() and int(fi) < 2 else None
+            lines_ = text.split("\n") if text is not None else []
+            cov = lines_[sl][sc:ec + 1] if sl < len(lines_) and sl == el else None
+            if cov not in names:
+                why = "'labels not defined' %s is located in file %s at line %d columns %d-%d, which reads %r" % (names, fi, sl + 1, sc + 1, ec + 1, cov)
+        if why:
+            bad.append(dict(files=files, base="a.s", kind="illformed:undefined-in-two-files", why=why, output=line[:300]))
+    return bad, len(cases) + len(trees)
 
 
 def run(ctx):
